@@ -387,6 +387,11 @@ func (t *translator) stmts(list []ast.Stmt, next func() string, cont, brk string
 			elsePart = tail()
 		}
 		return "(if " + cond + " then " + thenPart + " else " + elsePart + ")"
+	case *ast.SendStmt:
+		if ev, ok := t.spec.effects[goStr(x)]; ok {
+			return event(ev)
+		}
+		return t.fail("unsupported send %s", goStr(x))
 	case *ast.DeclStmt:
 		// `var x T`: the zero value
 		if gd, ok := x.Decl.(*ast.GenDecl); ok && gd.Tok == token.VAR {
@@ -409,6 +414,9 @@ func (t *translator) stmts(list []ast.Stmt, next func() string, cont, brk string
 		}
 		return t.fail("unsupported declaration %s", goStr(x))
 	case *ast.AssignStmt:
+		if ev, ok := t.spec.effects[goStr(x)]; ok {
+			return event(ev)
+		}
 		if len(x.Lhs) == 2 && len(x.Rhs) == 2 {
 			// a, b = e1, e2 on tracked variables: both right-hand sides first
 			l0, ok0 := t.lookup(x.Lhs[0])
@@ -990,7 +998,54 @@ func genDB(repo, out string) {
 	if err != nil {
 		d = fmt.Sprintf("/-- UNTRANSLATABLE: %s -/\ndef %s : Unit := ()\n", strings.ReplaceAll(err.Error(), "-/", "- /"), spec.leanName)
 	}
-	sb.WriteString(d + "\nend GenDB\n")
+	sb.WriteString(d + "\n")
+	isHook := func(c *ast.CallExpr) bool {
+		s := goStr(c.Fun)
+		return strings.HasPrefix(s, "vhook.") || strings.Contains(s, ".logger.")
+	}
+	for _, it := range []struct {
+		name string
+		spec transSpec
+	}{
+		{"rawset", transSpec{
+			leanName: "rawset", binders: "(size threshold : Nat) (ev : List String)", retType: "List String",
+			exprMap: map[string]string{"db.memtable.size()": "size", "db.config.MemtableByteThreshold": "threshold", "db.memtable": "()"},
+			state:   []string{"ev"}, stateLn: []string{"ev"}, evVar: "ev",
+			effects: map[string]string{"db.memtable.set(entries...)": "memtable.set batch", "db.memtable.freeze()": "memtable.freeze",
+				"db.mu.Lock()": "db.mu.Lock", "db.mu.Unlock()": "db.mu.Unlock", "db.immutables.PushBack(imt)": "immutables.PushBack",
+				"db.memtable = db.memtable.reset()": "memtable = reset", "db.flushC <- imt": "flushC <- imt"},
+			ret: func(vals []string, st []string) string { return "ev" }, fallOff: func(st []string) string { return "ev" }, panicVal: "ev", skipCall: isHook,
+		}},
+		{"flushImmutable", transSpec{
+			leanName: "flushImmutable", binders: "(flushFails deleteFails : Bool) (ev : List String)", retType: "Option (List String)",
+			exprMap: map[string]string{},
+			state:   []string{"ev"}, stateLn: []string{"ev"}, evVar: "ev",
+			effects: map[string]string{"db.manager.flushToL0(imt.all())": "manager.flushToL0", "imt.wal.Delete()": "wal.Delete"},
+			binds:   map[string][][2]string{"db.manager.flushToL0(imt.all())": {{"err", "flushFails"}}, "imt.wal.Delete()": {{"err", "deleteFails"}}},
+			wraps: map[string]func(string) string{
+				"db.logger.Panicf(\"failed to flush immutable memtable: %v\", err)": func(string) string { return "none" },
+				"db.logger.Panicf(\"failed to delete immutable wal file: %v\", err)": func(string) string { return "none" },
+			},
+			ret: func(vals []string, st []string) string { return "some ev" }, fallOff: func(st []string) string { return "some ev" }, panicVal: "none",
+			skipCall: func(c *ast.CallExpr) bool { return strings.HasPrefix(goStr(c.Fun), "vhook.") },
+		}},
+	} {
+		f2 := findFunc(p, "DB", it.name)
+		d2 := ""
+		e2 := fmt.Errorf("DB.%s not found", it.name)
+		if f2 != nil {
+			sp := it.spec
+			if it.name == "flushImmutable" {
+				sp.exprMap["err != nil"] = "err"
+			}
+			d2, e2 = translateFunc(f2, sp)
+		}
+		if e2 != nil {
+			d2 = fmt.Sprintf("/-- UNTRANSLATABLE: %s -/\ndef %s : Unit := ()\n", strings.ReplaceAll(e2.Error(), "-/", "- /"), it.spec.leanName)
+		}
+		sb.WriteString(d2 + "\n")
+	}
+	sb.WriteString("end GenDB\n")
 	if err := os.WriteFile(out, []byte(sb.String()), 0644); err != nil {
 		fatal(err)
 	}
